@@ -10,27 +10,28 @@ Open Scope Z_scope.
 (* ================= C04: reference ordinals ================= *)
 (* encoder: a container registered when n others were is given ordinal n, and keeps it whatever
    is registered after it *)
-Lemma ref_find_shift refs a i : ref_find refs a (i + 1) = option_map (fun p => (fst p + 1, snd p)) (ref_find refs a i).
-Proof.
-  revert i. induction refs as [|[b k] r IH]; intros i; cbn [ref_find]; [reflexivity|].
-  destruct ((b =? a) && negb (a =? 0)); [reflexivity|]. apply IH.
-Qed.
-Lemma ref_find_miss_app refs a k more i : a <> 0 -> ref_find refs a i = None ->
-  ref_find (refs ++ (a, k) :: more) a i = Some (i + Z.of_nat (length refs), k).
+Lemma rkind_eqb_refl k : rkind_eqb k k = true.
+Proof. destruct k; reflexivity. Qed.
+Lemma ref_find_miss_app refs a k more i : a <> 0 -> ref_find refs a k i = None ->
+  ref_find (refs ++ (a, k) :: more) a k i = Some (i + Z.of_nat (length refs)).
 Proof.
   intros Ha. revert i. induction refs as [|[b kb] r IH]; intros i H; cbn [ref_find app length] in *.
-  - rewrite Z.eqb_refl. replace (a =? 0) with false by lia. cbn. do 2 f_equal. lia.
-  - destruct ((b =? a) && negb (a =? 0)); [discriminate|]. rewrite (IH (i + 1) H). do 2 f_equal. lia.
+  - rewrite Z.eqb_refl, rkind_eqb_refl. replace (a =? 0) with false by lia. cbn. f_equal. lia.
+  - destruct ((b =? a) && rkind_eqb k kb && negb (a =? 0)); [discriminate|]. rewrite (IH (i + 1) H). f_equal. lia.
 Qed.
-Theorem encoder_ordinal_is_registration_count st k a : a <> 0 -> ref_find (erefs st) a 0 = None ->
-  forall more, ref_find (erefs (snd (check_ref st k a)) ++ more) a 0 = Some (Z.of_nat (length (erefs st)), k).
+Theorem encoder_ordinal_is_registration_count st k a : a <> 0 -> ref_find (erefs st) a k 0 = None ->
+  forall more, ref_find (erefs (snd (check_ref st k a)) ++ more) a k 0 = Some (Z.of_nat (length (erefs st))).
 Proof.
   intros Ha Hm more. unfold check_ref. rewrite Hm. cbn [snd erefs]. rewrite <- app_assoc. cbn [app].
   rewrite (ref_find_miss_app _ _ _ _ 0 Ha Hm). reflexivity.
 Qed.
-Theorem encoder_second_occurrence_is_ref st k a i : ref_find (erefs st) a 0 = Some (i, k) ->
+Theorem encoder_second_occurrence_is_ref st k a i : ref_find (erefs st) a k 0 = Some i ->
   check_ref st k a = (Some i, st).
-Proof. intros H. unfold check_ref. rewrite H. destruct k; reflexivity. Qed.
+Proof. intros H. unfold check_ref. rewrite H. reflexivity. Qed.
+(* a container of another kind at the same address neither hides nor is hidden by it *)
+Theorem encoder_kinds_do_not_collide refs a k k' i : rkind_eqb k k' = false ->
+  ref_find ((a, k') :: refs) a k i = ref_find refs a k (i + 1).
+Proof. intros H. cbn [ref_find]. rewrite H, andb_false_r. reflexivity. Qed.
 
 (* decoder: an object is registered - at the ordinal equal to the number of containers
    registered before it - BEFORE its fields are read, and a back-reference with that ordinal
